@@ -92,6 +92,26 @@ def extra_spelling_probe(eng, tier, seed):
                         break
             if bad:
                 violations.append({"name": vname, "concrete": what, "detail": bad})
+        # the root namespace designated by its bare NAME (last strategy of the root inference), absolute targets of one tree,
+        # one of them below a directory that repeats the root's name: the root is the OUTERMOST directory of that name
+        one_tree = [k for k in keys if k[0] == "p1"]
+        targets = [top / t / "animals" / sub / base for (t, sub, base) in one_tree]
+        what = {"roots": ["animals"], "targets": [str(t) for t in targets]}
+        try:
+            direct, transitive = pydsdl.read_files(targets, ["animals"], allow_unregulated_fixed_port_id=True)
+            calls += 1
+            got = {t.full_name: t for t in direct}
+            for (tree, sub, base) in one_tree:
+                name, ver, port = files[(tree, sub, base)]
+                t = got.get(name)
+                if t is None or Path(t.source_file_path_to_root).resolve() != (top / tree / "animals").resolve() \
+                        or Path(t.source_file_path).resolve() != (top / tree / "animals" / sub / base).resolve():
+                    violations.append({"name": "native/read-files-root-by-name", "concrete": what,
+                                       "detail": "%s: got %s" % (name, sorted((str(x), str(x.source_file_path_to_root)) for x in direct))})
+                    break
+        except Exception as ex:
+            violations.append({"name": "native/read-files-root-by-name", "concrete": what,
+                               "detail": "%s: %s" % (type(ex).__name__, str(ex)[:200])})
     finally:
         os.chdir(origin)
         shutil.rmtree(top, ignore_errors=True)
